@@ -98,6 +98,14 @@ func (r *verifC17Req) dump() string {
 	return ""
 }
 
+// preDump prints the rows the request addresses as last read (for violation messages).
+func (w *verifC17World) preDump(r *verifC17Req) string {
+	if w.cur == nil {
+		return ""
+	}
+	return fmt.Sprintf("task=%+v meta=%+v", w.cur.tasks[verifC17Key(r.channel, r.taskID)], w.cur.metas[r.channel])
+}
+
 func (r *verifC17Req) encode() []byte {
 	switch r.kind {
 	case "create":
@@ -359,6 +367,7 @@ type verifC17World struct {
 	cut  map[string]bool          // task key -> passed its commit / promote step
 	reopened map[string]bool      // task key -> a fence reset was applied after that step
 	nKnownReopen int
+	nKnownReopenHard int
 	obs  map[string][]verifC17Obs // task key -> earlier observations
 	sentReq map[string][]*verifC17Req // channel -> earlier commands (for duplicate delivery)
 	cur     *verifC17State
@@ -431,12 +440,18 @@ func (w *verifC17World) apply(rt *rapid.T, r *verifC17Req, direct bool) string {
 		if errors.Is(err, metadb.ErrStaleMeta) || errors.Is(err, metadb.ErrNotFound) || errors.Is(err, metadb.ErrAlreadyExists) {
 			return ApplyResultStaleMeta
 		}
-		rt.Fatalf("VERIF-VIOLATION C17: WriteBatch path failed hard on a well-formed command %s: %v\n  request: %s", r, err, r.dump())
+		if w.knownReopenHardFailure(r, err) {
+			return ApplyResultStaleMeta
+		}
+		rt.Fatalf("VERIF-VIOLATION C17: WriteBatch path failed hard on a well-formed command %s: %v\n  request: %s\n  pre: %s", r, err, r.dump(), w.preDump(r))
 	}
 	w.index++
 	res, err := w.sm.Apply(ctx, multiraft.Command{SlotID: verifC17Slot, Index: w.index, Term: 1, Data: r.encode()})
+	if err != nil && w.knownReopenHardFailure(r, err) {
+		return ApplyResultStaleMeta
+	}
 	if err != nil {
-		rt.Fatalf("VERIF-VIOLATION C17: state machine failed hard on a well-formed command %s: %v\n  request: %s", r, err, r.dump())
+		rt.Fatalf("VERIF-VIOLATION C17: state machine failed hard on a well-formed command %s: %v\n  request: %s\n  pre: %s", r, err, r.dump(), w.preDump(r))
 	}
 	if r.kind == "gc" {
 		if _, ok, derr := DecodeGarbageCollectTerminalChannelMigrationTasksResult(res); !ok || derr != nil {
@@ -445,6 +460,28 @@ func (w *verifC17World) apply(rt *rapid.T, r *verifC17Req, direct bool) string {
 		return ApplyResultOK
 	}
 	return string(res)
+}
+
+// knownReopenHardFailure: a further manifestation of the known finding
+// verifC17SigResetReopens. A replica replacement that was PROMOTED, then moved
+// back to a pre-cutover phase by an expired-fence reset, is "abortable" again;
+// the abort treats the promoted target as an unpromoted learner whenever the
+// environment has meanwhile dropped it from the ISR, removes it from Replicas
+// and the resulting meta can fail validation (MinISR > |Replicas|): the abort
+// command then fails hard (ErrInvalidArgument) instead of being refused.
+// Unreachable without the reopen (before a promote, removing the learner
+// restores the original replica set). Tolerated only for an abort of a task
+// the model knows as cut AND reopened, and only while the finding is listed.
+func (w *verifC17World) knownReopenHardFailure(r *verifC17Req, err error) bool {
+	key := verifC17Key(r.channel, r.taskID)
+	if r.kind != "abort" || !w.cut[key] || !w.reopened[key] || !errors.Is(err, metadb.ErrInvalidArgument) {
+		return false
+	}
+	if !kit.KnownFinding("C17", verifC17SigResetReopens) {
+		return false
+	}
+	w.nKnownReopenHard++
+	return true
 }
 
 // ---------------------------------------------------------------- request builders (as production callers build them)
@@ -1767,6 +1804,7 @@ func verifC17Report(k *kit.Case, w *verifC17World, prefix string) {
 	k.LabelIf(w.nDirect > 0, prefix+"some commands applied directly on WriteBatch")
 	k.LabelIf(w.nSteps >= 40, prefix+"history >= 40 commands")
 	k.LabelIf(w.nKnownReopen > 0, prefix+"KNOWN FINDING exercised: committed task aborted after expired-fence reset")
+	k.LabelIf(w.nKnownReopenHard > 0, prefix+"KNOWN FINDING exercised: abort of a promoted+reopened task fails hard (meta validation)")
 	parts := w.keyParts
 	k.Sample(func() any {
 		if len(parts) > 60 {
